@@ -495,7 +495,10 @@ def run(ctx):
     r08_5_registration(ctx)
     r08_7_method_decorator(ctx)
     r08_6_enum_tables(ctx)
-    from rules import c12 as _c12
+    from rules import c12 as _c12, c09 as _c09, c13 as _c13
+
+    _c09.r09_5_contract_names(ctx)  # the selector a method is dispatched on is the selector of its registered name (shared with C09)
+    _c13.r13_1_bytes_forms(ctx)  # the `method` pseudo-op holds the signature text itself, so the selector is the one the contract advertises (shared with C13)
 
     _c12.r12_2b_named_ints(ctx)  # OnCompletion names keep their AVM numbers when constants are assembled (shared with C12)
     return (
